@@ -397,6 +397,10 @@ func main() {
 	}
 	bads = append(bads,
 		badCf{"tls+no-tls-line", fmt.Sprintf("a.test:8443 {\n\ttls %s %s\n}\nb.a.test:8443 {\n\tstatus 204 /\n\ttls off\n}\n", certs["a.test"][0], certs["a.test"][1])},
+		// the catch-all under two of its spellings, with different client-certificate policies (both orders)
+		badCf{"catch-all-aliases-different-client-auth/1", fmt.Sprintf("0.0.0.0:8443 {\n\ttls %s %s {\n\t\tclients %s\n\t}\n}\n[::]:8443 {\n\ttls %s %s\n}\n", certs["a.test"][0], certs["a.test"][1], caFile, certs["a.test"][0], certs["a.test"][1])},
+		badCf{"catch-all-aliases-different-client-auth/2", fmt.Sprintf("[::]:8443 {\n\ttls %s %s\n}\n0.0.0.0:8443 {\n\ttls %s %s {\n\t\tclients %s\n\t}\n}\n", certs["a.test"][0], certs["a.test"][1], certs["a.test"][0], certs["a.test"][1], caFile)},
+		badCf{"catch-all-aliases-different-client-auth/3", fmt.Sprintf(":8443 {\n\ttls %s %s {\n\t\tclients %s\n\t}\n}\n0.0.0.0:8443 {\n\ttls %s %s\n}\n", certs["a.test"][0], certs["a.test"][1], caFile, certs["a.test"][0], certs["a.test"][1])},
 		badCf{"same-name-different-protocols", fmt.Sprintf("a.test:8443/p1 {\n\ttls %s %s {\n\t\tprotocols tls1.2 tls1.2\n\t}\n}\na.test:8443/p2 {\n\ttls %s %s {\n\t\tprotocols tls1.3\n\t}\n}\n", certs["a.test"][0], certs["a.test"][1], certs["a.test"][0], certs["a.test"][1])},
 		badCf{"same-name-different-client-auth", fmt.Sprintf("a.test:8443/p1 {\n\ttls %s %s {\n\t\tclients %s\n\t}\n}\na.test:8443/p2 {\n\ttls %s %s\n}\n", certs["a.test"][0], certs["a.test"][1], caFile, certs["a.test"][0], certs["a.test"][1])})
 	for _, bad := range bads {
